@@ -150,7 +150,7 @@ func (r *run) play(id int, dir string, seed uint64) error {
 		return err
 	}
 	r.n = n
-	if !r.settle([]string{"tip", "idle", "fin"}) {
+	if !r.e.await(func() bool { return r.e.find("dl") != nil && r.e.find("rd") != nil }, stuckWait) || !r.settle([]string{"tip", "idle", "fin"}) {
 		return fmt.Errorf("the node did not reach its first gates (dl=%v rd=%v)", r.e.find("dl") != nil, r.e.find("rd") != nil)
 	}
 	for i, s := range b.Steps {
